@@ -20,10 +20,10 @@ def head(e):
 def classify(c):
     """stable key of a failing input: stream + the shape of the failure (no data values)"""
     why = c.get("why", "")
-    if "OR-chain" in why and c.get("frozen_inlist"):
+    if "definitional rewriting" in why and c.get("frozen_inlist"):
         return "in-list:non-constant-element-frozen-into-static-filter"
-    if "OR-chain" in why:
-        return "%s:%s:in-list-vs-or-chain" % (c["stream"], head(c["expr"]))
+    if "definitional rewriting" in why:
+        return "%s:%s:differs-from-definition" % (c["stream"], head(c["expr"]))
     if "panicked" in why or "panic" in why:
         kind = "panic"
     elif "no single row raises" in why:
@@ -43,7 +43,7 @@ def brief(c):
 
 def run(pid, tier, seed, replay):
     ck = Check(pid, tier, seed, level="proof")
-    n = 720 if tier == "quick" else 14400
+    n = 480 if tier == "quick" else 12000
     ck.proof_step(extra_targets=["Model/EvalStrategies.vo"])
     ok, out, dt = vlib.cargo_build("h_expr", bin="c33")
     ck.log("cargo build: ok=%s (%.0fs)" % (ok, dt))
